@@ -45,6 +45,10 @@ def bp_mutation(g, bid, segs, SR):
         return [{"op": "bp.changeArg", "id": bid, "name": n, "arg": enc(a), "value": enc(r.choice([0.375, -0.625, 3, 1.0]))}], None
     if k == "dur" and real:
         n, f = r.choice(real)
+        if r.random() < 0.4:
+            # a duration that differs from a typical one by far less than a sample / than 1e-8 s
+            return [{"op": "bp.changeDur", "id": bid, "name": n, "dur": enc(r.choice([5, 7]) / SR * (1 + 2.0 ** -r.choice([18, 22, 30])))}], \
+                   [{"op": "bp.changeDur", "id": "b" if bid == "a" else "a", "name": n, "dur": enc(r.choice([5, 7]) / SR)}]
         return [{"op": "bp.changeDur", "id": bid, "name": n, "dur": enc(r.choice([5, 7, 11]) / SR)}], None
     if k == "insert":
         return ([{"op": "bp.insert", "id": bid, "pos": r.choice([-1, 0, 1]), "fn": "ramp", "args": [enc(0.5), enc(0.25)],
@@ -85,7 +89,7 @@ def observe(kind, a, b):
 def case(g, tier, ci):
     r = g.r
     which = r.choice(["bp", "bp", "el", "el", "sq", "sq"])
-    SR = r.choice([10, 100, 1e3, 2.5, 1e6])
+    SR = r.choice([10, 100, 1e3, 2.5, 1e6, 1e9, 2.4e9])
     muts = []      # list of (ops, undo)
     if which == "bp":
         bops, info = g.blueprint("a", SR=SR, nseg=(1, 4), kinds=("ramp", "sine", "gaussian", "user"), waits=0.15, aligned=True)
@@ -119,7 +123,7 @@ def case(g, tier, ci):
             side = r.choice(["a", "b"])
             ch = r.choice(chans)
             segs = tables[ch]
-            k = r.choice(["arg", "dur", "flags", "flags", "addbp", "read"])
+            k = r.choice(["arg", "dur", "flags", "flags", "addbp", "read", "newchan"])
             real = [(n, f) for n, f in segs if f != "waituntil"]
             if k == "arg" and real:
                 n, f = r.choice(real)
@@ -130,6 +134,11 @@ def case(g, tier, ci):
                 ops.append({"op": "el.changeDur", "id": side, "ch": ch, "name": n, "dur": enc(r.choice([5, 7]) / SR)})
             elif k == "flags":
                 ops.append({"op": "el.addFlags", "id": side, "ch": ch, "flags": [enc(r.choice([0, 1, 2, "H", "T", ""])) for _ in range(4)]})
+            elif k == "newchan":
+                # a channel that exists on one side only (nested channel sets)
+                nb = g.fresh("nb")
+                bops, _ = g.blueprint(nb, SR=SR, nseg=(1, 2), kinds=("ramp",), waits=0.0, markers=False, total=N)
+                ops += bops + [{"op": "el.addBP", "id": side, "ch": r.choice([9, "extra"]), "bp": nb}]
             elif k == "addbp":
                 nb = g.fresh("nb")
                 bops, _ = g.blueprint(nb, SR=SR, nseg=(1, 2), kinds=("ramp",), waits=0.0, markers=False, total=N)
@@ -147,7 +156,7 @@ def case(g, tier, ci):
     chans, P = info["chans"], info["P"]
     for _ in range(r.choice([0, 1, 1, 1, 2, 3])):
         side = r.choice(["a", "b"])
-        k = r.choice(["seq", "seq", "amp", "off", "delay", "filter", "SR", "elarg", "read"])
+        k = r.choice(["seq", "seq", "amp", "off", "delay", "filter", "SR", "elarg", "read", "newpos"])
         ch = r.choice(chans)
         if k == "seq":
             fld = r.choice(["twait", "nrep", "jump_input", "jump_target", "goto"])
@@ -156,6 +165,9 @@ def case(g, tier, ci):
             ops.append({"op": "sq.setSeq", "id": side, "pos": pos, "field": fld, "v": v})
             if r.random() < 0.25:
                 ops.append({"op": "sq.setSeq", "id": "b" if side == "a" else "a", "pos": pos, "field": fld, "v": v})
+        elif k == "newpos" and info["els"]:
+            # one more position on one side only (a copy of an existing element)
+            ops.append({"op": "sq.addElement", "id": side, "pos": P + 1, "el": r.choice(list(info["els"].values()))})
         elif k == "amp":
             ops.append({"op": "sq.setAmp", "id": side, "ch": ch, "v": enc(r.choice([20, 21.5, 30]))})
         elif k == "off":
